@@ -379,13 +379,11 @@ theorem canonErrs_ne_nil (es : List Err) (h : es ≠ []) : canonErrs es ≠ [] :
 
 /-- The hypotheses under which the augment part of the model is analysed; all are statements
 about what `ToEntry` and the registry hand to the augment loop. -/
-structure PhaseInput (reg : Registry) (s : PState) (order : List Nat) : Prop where
+structure PhaseInput (reg : Registry) (s : PState) : Prop where
   /-- augment arguments are absolute schema node identifiers -/
   plain : PlainPending reg s
   /-- no augment entry is listed twice for one module -/
   nodup : NodupPending s
-  /-- every (sub)module with augments is visited by the loop -/
-  cover : Cover s order.toArray
   /-- one row per tree in the pending table -/
   keys : (keys s).Nodup
   /-- the tree of every (sub)module with augments exists -/
@@ -458,11 +456,83 @@ theorem processAll_phaseStart (reg : Registry) (opts : Opts) (plug : Plug) :
         subst hs ho
         exact ⟨by simpa [allErrs] using h2, _, rfl⟩
 
+/-! ### the loop visits every tree that has augments -/
+
+theorem mem_insertBy {α} (lt : α → α → Bool) (x y : α) (l : List α) : y ∈ insertBy lt x l ↔ y = x ∨ y ∈ l := by
+  induction l with
+  | nil => simp [insertBy]
+  | cons z zs ih =>
+    simp only [insertBy]
+    split
+    · simp
+    · simp only [List.mem_cons, ih]
+      constructor
+      · rintro (h | h | h)
+        · exact Or.inr (Or.inl h)
+        · exact Or.inl h
+        · exact Or.inr (Or.inr h)
+      · rintro (h | h | h)
+        · exact Or.inr (Or.inl h)
+        · exact Or.inl h
+        · exact Or.inr (Or.inr h)
+
+theorem mem_sortBy {α} (lt : α → α → Bool) (y : α) (l : List α) : y ∈ sortBy lt l ↔ y ∈ l := by
+  induction l with
+  | nil => simp [sortBy]
+  | cons x xs ih =>
+    have : sortBy lt (x :: xs) = insertBy lt x (sortBy lt xs) := rfl
+    rw [this, mem_insertBy, ih]; simp
+
+/-- Every seq that is bound in one of the two module tables and belongs to a loaded module is in
+the loop's module order. -/
+theorem seq_in_order (reg : Registry) (m : Mod) (hm : m ∈ reg.mods)
+    (hb : (reg.modules ++ reg.subModules).any (·.2 == m.seq) = true) :
+    m.seq ∈ (sortBy (fun (a b : Mod) =>
+      if a.fullName != b.fullName then a.fullName < b.fullName else !a.isSub && b.isSub)
+      ((reg.modules ++ reg.subModules).filterMap fun kv => reg.byId kv.2)).map (·.seq) := by
+  obtain ⟨kv, hkv, hk⟩ := List.any_eq_true.mp hb
+  have hk' : kv.2 = m.seq := by simpa using hk
+  -- `byId` finds a module with that seq
+  have hfind : ∃ m', reg.byId kv.2 = some m' ∧ m'.seq = kv.2 := by
+    unfold Registry.byId
+    cases hf : reg.mods.find? (·.seq == kv.2) with
+    | none =>
+      have := List.find?_eq_none.mp hf m hm
+      simp [hk'] at this
+    | some m' => exact ⟨m', rfl, by simpa using List.find?_some hf⟩
+  obtain ⟨m', hm', hseq⟩ := hfind
+  refine List.mem_map.mpr ⟨m', ?_, by rw [hseq, hk']⟩
+  rw [mem_sortBy]
+  exact List.mem_filterMap.mpr ⟨kv, hkv, hm'⟩
+
+theorem phaseStart_cover (reg : Registry) (opts : Opts) (plug : Plug) (s : PState) (order : List Nat)
+    (h : phaseStart reg opts plug = some (s, order)) : Cover s order.toArray := by
+  unfold phaseStart at h
+  simp only at h
+  split at h
+  · cases h
+  · split at h
+    · cases h
+    · simp only [Option.some.injEq, Prod.mk.injEq] at h
+      obtain ⟨hs, ho⟩ := h
+      subst hs ho
+      intro id hne
+      have hk := mem_keys_of_pendingOf_ne_nil _ id hne
+      simp only [keys, List.map_map, List.mem_map, Function.comp] at hk
+      obtain ⟨m, hm, hid⟩ := hk
+      subst hid
+      show _ ∈ (List.toArray _).toList
+      rcases List.mem_append.mp hm with hm | hm
+      · simp only [Registry.distinctModules, List.mem_filter] at hm
+        exact seq_in_order reg m hm.1 (by rw [List.any_append, hm.2]; rfl)
+      · simp only [Registry.distinctSubs, List.mem_filter] at hm
+        exact seq_in_order reg m hm.1 (by rw [List.any_append, hm.2]; simp)
+
 /-- "…or reported" for `processAll`, at the state it really starts the augment phase from. -/
 theorem processAll_reported_pinned (reg : Registry) (opts : Opts) (plug : Plug) :
     (phaseStart reg opts plug = none → ∃ errs, errs ≠ [] ∧ (processAll reg opts plug).errors = canonErrs errs) ∧
     (∀ s order, phaseStart reg opts plug = some (s, order) → allErrs s.forest = [] ∧
-      (PhaseInput reg s order →
+      (PhaseInput reg s →
         let fuel := s.pending.foldl (fun n p => n + p.2.length) 0 + 2
         let ph := phaseR (Res.ofReg reg) order fuel s
         (∀ id, ∀ a ∈ s.pendingOf id,
@@ -479,7 +549,7 @@ theorem processAll_reported_pinned (reg : Registry) (opts : Opts) (plug : Plug) 
     intro hin
     simp only
     have hfuel := fuel_sufficient s hin.keys
-    obtain ⟨h1, h2⟩ := phase_reported (Res.ofReg reg) order _ s hin.nodup hin.cover hfuel hin.trees
+    obtain ⟨h1, h2⟩ := phase_reported (Res.ofReg reg) order _ s hin.nodup (phaseStart_cover reg opts plug s order hstart) hfuel hin.trees
     rw [augmentPhase_eq reg order _ s hin.plain] at herr
     have hne : ∀ er, er ∈ allErrs (phaseR (Res.ofReg reg) order
         (s.pending.foldl (fun n p => n + p.2.length) 0 + 2) s).1.forest → (processAll reg opts plug).errors ≠ [] := by
@@ -500,5 +570,6 @@ theorem processAll_reported_pinned (reg : Registry) (opts : Opts) (plug : Plug) 
     · intro ev hev hbad
       obtain ⟨er, her, _⟩ := h2 ev hev hbad
       exact hne er her
+
 
 end Goyang.Lemmas.AugmentReport
